@@ -32,6 +32,10 @@ def run(prop, tier, replay):
         ("machine-zonemap", dict(mode="zone", itype="zonemap", k=0, mz=1, rz=2, mf=2, mr=3 if quick else 5, inv=inv), None, MACHINE),
         ("machine-bloom", dict(mode="zone", itype="bloom", k=0, mz=1, rz=2, mf=2, mr=3 if quick else 4, inv=inv), None, MACHINE),
         ("machine-ngram", dict(mode="ngram", kind="text", alpha=small_alpha, mstr=3, mr=2 if quick else 3, inv=inv), None, NGM),
+    ] + ([] if quick else [
+        ("machine-zonemap-k1", dict(mode="zone", itype="zonemap", k=1, mz=1, rz=2, mf=2, mr=4, inv=inv), None, MACHINE),
+        ("machine-bloom-k1", dict(mode="zone", itype="bloom", k=1, mz=1, rz=2, mf=2, mr=3, inv=inv), None, MACHINE),
+    ]) + [
         ("asbuilt-zone-addresses", dict(mode="zone", itype="zonemap", k=0, mz=1, rz=2, mf=2, mr=3, inv=inv,
                                         dev='{"ZoneRangeFromCounts", "FragmentGapNotDetected"}'), "IndexedScanEqualsFullScan", []),
         ("asbuilt-ngram", dict(kind="text", mstr=3, inv=inv, dev='{"NgramNoTrigramIsEmpty", "AtLeastReadsOnlyGuaranteed"}'), "LawsC20", []),
